@@ -1,12 +1,141 @@
-import CalicoVerif.Model.C08
+import CalicoVerif.Proofs.C08
 /-!
 C08 — Rendered iptables/nftables rules match exactly what the policy rule says.
+
+Full-strength statement: `RenderExact` below, for every rule, packet and configuration.
+It is FALSE of the current code in two ways (both reproduced on the real renderer by the
+harness oracle, see known_findings.txt):
+* `render_exact_false_three_blocks` — three positive match blocks (ThisBlockPass never cleared);
+* `render_exact_false_nft_not_icmp` — nftables `NotICMPTypeAndCode` negates type and code separately.
+
+What IS proved, for all inputs (`…_partial` = the pieces of `RenderExact` that hold):
+* `filterRule_preserves_partial` — `FilterRuleToIPVersion`/`filterNets` never change the meaning;
+* `splitPortList_flatten_partial` — the 15-slot split keeps every port range, in order;
+* `render_exact_partial` — `CombineMatchAndActionsForProtoRule`: the rendered action rules take
+  exactly the rule's action when the match clauses hold and otherwise fall through with the
+  mark untouched.
+Not proved in Lean (covered by the text-exact correspondence + evaluation oracle only): that the
+clause list of `CalculateRuleMatch` is equivalent to the reference match, and the mark-bit
+invariants of one or two positive blocks plus negated blocks.
 -/
 namespace CalicoVerif.C08
 open CalicoVerif.Netfilter CalicoVerif.Policy
 
-/-- placeholder while the pipeline is brought up -/
-theorem splitPortList_nil : splitPortList [] = [] := by
-  simp [splitPortList]
+/-- The property, for one configuration / rule / packet / entry mark. -/
+def RenderExact (cfg : Cfg) (ctx : Ctx) (env : Env) (v6 : Bool) (r : Policy.Rule) (pkt : Packet)
+    (mark : Mark) : Prop :=
+  ∀ rs act, protoRuleToRules cfg ctx (setNameFor v6) v6 r = some rs → parseAction r.action = some act →
+    ∃ mark', mark' &&& (cfg.markAccept ||| cfg.markPass ||| cfg.markDrop) = 0 ∧
+      runRules env (fun t _ => .missing t) pkt rs mark =
+        if ruleMatches env (setNameFor v6) r pkt then actionOutcome cfg env (fun t _ => .missing t) pkt [] mark' act
+        else .returned mark'
+
+/-! ### the statement is false: three positive blocks -/
+
+def ports16 (base : Nat) : List PortRange := (List.range 16).map fun i => ⟨base + i, base + i⟩
+
+/-- allow tcp, 2 source CIDRs, 16 source ports, 16 destination ports: three positive blocks -/
+def threeBlockRule : Policy.Rule :=
+  { action := "allow", protocol := some (.name "tcp"),
+    srcNet := ["10.0.0.0/8", "192.168.0.0/16"], srcPorts := ports16 1, dstPorts := ports16 101 }
+
+def wEnv : Env :=
+  { netContains := fun c a => (c == "10.0.0.0/8" && a / 16777216 == 10) ||
+      (c == "192.168.0.0/16" && a / 65536 == 49320) || c == "0.0.0.0/0" || c == "::/0"
+    protoNum := fun s => if s == "tcp" then some 6 else if s == "icmp" then some 1 else none }
+
+/-- tcp 172.16.0.0:1 → 10.1.2.3:101 — the source is in neither CIDR, the ports are listed -/
+def wPkt : Packet := { proto := 6, src := 2886729728, dst := 167837955, sport := 1, dport := 101 }
+
+/-- The rule does not match the packet, yet the rendered rules set the accept mark and return:
+the 2nd block (destination ports) leaves ThisBlockPass (0x400) set, so the failing 3rd block
+(source CIDRs) does not clear AllBlocksPass (0x200). -/
+theorem render_exact_false_three_blocks :
+    ruleMatches wEnv (setNameFor false) threeBlockRule wPkt = false ∧
+    (protoRuleToRules {} {} (setNameFor false) false threeBlockRule).map
+      (fun rs => runRules wEnv (fun t _ => .missing t) wPkt rs 0) = some (.returned 0x680#32) := by
+  constructor <;> decide
+
+theorem not_renderExact_three_blocks : ¬ RenderExact {} {} wEnv false threeBlockRule wPkt 0 := by
+  intro h
+  have h1 := render_exact_false_three_blocks
+  cases hrs : protoRuleToRules {} {} (setNameFor false) false threeBlockRule with
+  | none => rw [hrs] at h1; exact absurd h1.2 (by simp)
+  | some rs =>
+    obtain ⟨m', hm', he⟩ := h rs .allow hrs (by decide)
+    rw [hrs] at h1
+    have h2 : runRules wEnv (fun t _ => .missing t) wPkt rs 0 = .returned 0x680#32 := by simpa using h1.2
+    rw [h2, h1.1] at he
+    simp only [Bool.false_eq_true, if_false, Result.returned.injEq] at he
+    subst he
+    revert hm'; decide
+
+/-! ### the statement is false: nftables negated ICMP type+code -/
+
+def notIcmpRule : Policy.Rule := { action := "deny", protocol := some (.name "icmp"), notIcmp := .typeCode 8 0 }
+
+/-- ICMP type 8 code 1: it is not (type 8, code 0), so the rule matches -/
+def icmpPkt : Packet := { proto := 1, src := 1, dst := 2, icmpType := 8, icmpCode := 1 }
+
+/-- On nftables the rendered rule `icmp type != 8 code != 0` does not fire for (8,1) although the
+rule matches it; on iptables (`! --icmp-type 8/0`) it does. -/
+theorem render_exact_false_nft_not_icmp :
+    ruleMatches { wEnv with dp := .nft } (setNameFor false) notIcmpRule icmpPkt = true ∧
+    (protoRuleToRules {} {} (setNameFor false) false notIcmpRule).map
+      (fun rs => runRules { wEnv with dp := .nft } (fun t _ => .missing t) icmpPkt rs 0) = some (.returned 0#32) ∧
+    (protoRuleToRules {} {} (setNameFor false) false notIcmpRule).map
+      (fun rs => runRules { wEnv with dp := .ipt } (fun t _ => .missing t) icmpPkt rs 0) =
+        some (.verdict .drop 0x800#32) := by
+  refine ⟨?_, ?_, ?_⟩ <;> decide
+
+/-! ### what holds for all inputs -/
+
+/-- `FilterRuleToIPVersion` (with `filterNets`) preserves the meaning of EVERY rule for packets of
+the IP version it is rendered for: the rule is dropped only if it cannot match such a packet,
+and otherwise the filtered copy matches exactly the same packets. -/
+theorem filterRule_preserves_partial (env : Env) (henv : EnvCatchAll env) (setName : String → String)
+    (r : Policy.Rule) (pkt : Packet) :
+    ruleMatches env setName r pkt =
+      match filterRuleToIPVersion pkt.v6 r with
+      | none => false
+      | some rc => ruleMatches env setName rc pkt :=
+  filterRule_preserves env henv setName r pkt
+
+/-- `SplitPortList` loses and reorders nothing: the concatenation of the splits is the input, so
+"port in some split" is "port in the list" (for lists of any length). -/
+theorem splitPortList_flatten_partial (ports : List PortRange) (p : Nat) :
+    (splitPortList ports).flatten = ports ∧
+    (splitPortList ports).any (fun s => inRanges s p) = inRanges ports p := by
+  refine ⟨splitPortList_flatten ports, ?_⟩
+  rw [← inRanges_flatten, splitPortList_flatten]
+
+/-- `CombineMatchAndActionsForProtoRule` is exact for every action, match-clause list, entry mark
+with the verdict bits clear, flow logs on or off, tracked or untracked, either deny action, and any
+rules that follow: matching ⇒ allow/pass set their bit and RETURN, deny sets its bit and
+DROPs/REJECTs, log falls through; not matching ⇒ fall through with the mark untouched. -/
+theorem render_exact_partial (cfg : Cfg) (ctx : Ctx) (env : Env) (call : String → Mark → Result)
+    (pkt : Packet) (action : String) (act : RuleAction) (m : List Clause) (rs rest : List Netfilter.Rule)
+    (mark : Mark)
+    (hact : parseAction action = some act)
+    (hrs : combineMatchAndActions cfg ctx action m = some rs)
+    (hA : cfg.markAccept ≠ 0) (hP : cfg.markPass ≠ 0) (hD : cfg.markDrop ≠ 0)
+    (hmA : mark &&& cfg.markAccept = 0) (hmP : mark &&& cfg.markPass = 0) (hmD : mark &&& cfg.markDrop = 0) :
+    runRules env call pkt (rs ++ rest) mark =
+      if clausesMatch env pkt mark m then actionOutcome cfg env call pkt rest mark act
+      else runRules env call pkt rest mark :=
+  combine_exact cfg ctx env call pkt action act m rs rest mark hact hrs hA hP hD hmA hmP hmD
+
+/-! ### non-vacuity -/
+
+example : EnvCatchAll wEnv := by intro a; constructor <;> rfl
+example : (combineMatchAndActions {} {} "deny" [.proto false (.name "tcp")]).isSome = true := by decide
+example : (0 : Mark) &&& ({} : Cfg).markAccept = 0 := by decide
+/-- a rule that IS rendered exactly: the 10.1.2.3 source matches all three blocks -/
+example :
+    ruleMatches wEnv (setNameFor false) threeBlockRule { wPkt with src := 167837955 } = true ∧
+    (protoRuleToRules {} {} (setNameFor false) false threeBlockRule).map
+      (fun rs => runRules wEnv (fun t _ => .missing t) { wPkt with src := 167837955 } rs 0) =
+        some (.returned 0x680#32) := by
+  constructor <;> decide
 
 end CalicoVerif.C08
